@@ -34,6 +34,9 @@ TCrc == IsEvent("crc") /\ Keep /\ H!CrcOK(B(Ev.msg), B(Ev.out))
 \* C02
 TAes == /\ IsEvent("aes") /\ Keep /\ B(Ev.out) = AESEncryptBlock(B(Ev.key), B(Ev.in)) /\ Ev.tainted = 0
         /\ B(Ev.out) = X!AesRefEncrypt(B(Ev.key), B(Ev.in))
+\* (C03 / C14) a key expansion fails only when an allocation was refused; whatever path was selected then, later results are right
+TAesExpand == IsEvent("aes_expand") /\ Keep /\ (Ev.ok \/ Ev.inj > 0)
+TFreshEnd == IsEvent("fresh_end") /\ Keep /\ Ev.status = 0
 \* stream calls: one byte position explains every call; re-initialising restarts the keystream
 RECURSIVE CtrOut(_, _, _, _, _, _)
 CtrOut(key, nonce, pos, calls, i, input) ==
@@ -97,6 +100,6 @@ TSig == /\ IsEvent("sig") /\ Keep /\ Ev.rc = 0
              [] OTHER -> B(Ev.query) = V!S3Query(B(Ev.keyid), B(Ev.secret), B(Ev.region), B(Ev.a), B(Ev.b), B(Ev.c), Ev.expiry, t)
 \* C20: a failed (or successful) key-file read never hands memory holding the secret back to the allocator
 TKeyfile == IsEvent("keyfile") /\ Keep /\ Ev.tainted = 0
-Next == TReset \/ THash \/ THmac \/ TPbkdf2 \/ TCrc \/ TAes \/ TCtr \/ TDhPub \/ TDhKey \/ TDhSane \/ TEntropy \/ TDrbgRead \/ TDrbgEnd \/ TSig \/ TKeyfile
+Next == TReset \/ THash \/ THmac \/ TPbkdf2 \/ TCrc \/ TAes \/ TAesExpand \/ TFreshEnd \/ TCtr \/ TDhPub \/ TDhKey \/ TDhSane \/ TEntropy \/ TDrbgRead \/ TDrbgEnd \/ TSig \/ TKeyfile
 Spec == Init /\ [][Next]_vars
 =============================================================================
